@@ -64,7 +64,12 @@ Fixpoint perm_eqb {A} (eqb : A -> A -> bool) (a b : list A) {struct a} : bool :=
   end.
 
 Definition logent_eqb (a b : logent) : bool :=
-  match a, b with LResolver p, LResolver q | LGuard p, LGuard q => path_eqb p q | _, _ => false end.
+  match a, b with
+  | LResolver p, LResolver q | LGuard p, LGuard q => path_eqb p q
+  | LDefer p l, LDefer q m => path_eqb p q && String.eqb l m
+  | _, _ => false
+  end.
+Definition is_call (l : logent) : bool := match l with LDefer _ _ => false | _ => true end.
 
 Record exec_case := {
   xc_schema : schema;
@@ -92,7 +97,7 @@ Definition model_spec (c : exec_case) : response :=
 
 Definition resp_matches (r : response) (c : exec_case) (with_log : bool) : bool :=
   jt_eqb (r_data r) (xc_data c) && perm_eqb err_eqb (r_errors r) (xc_errors c)
-  && (negb with_log || perm_eqb logent_eqb (r_log r) (xc_log c)).
+  && (negb with_log || perm_eqb logent_eqb (filter is_call (r_log r)) (xc_log c)).
 
 (** correspondence: the observed response and invocation log are what the model of gqlgen predicts *)
 Definition exec_corr (c : exec_case) : bool := resp_matches (model_impl c) c true.
